@@ -59,6 +59,7 @@ class Engine:
         self.cur_st = None
         self.cur_state_for_truth = None
         self.used_defs = set()
+        self.axioms_used = {}        # name -> definitional axiom of a spec-level function symbol that was used
 
     # ------------------------------------------------------------------ obligations
     def oblige(self, st, goal, kind, label, lineno=0, note=""):
@@ -69,7 +70,7 @@ class Engine:
         n = sum(1 for o in self.obls if o.name == nm or o.name.startswith(nm + "#"))
         if n:
             nm = f"{nm}#{n}"
-        hyps = list(st.pc) + self.reg.def_axioms(self.used_defs, self.c.opaque if self.c else ())
+        hyps = list(st.pc) + list(self.axioms_used.values())
         self.obls.append(Obligation(nm, kind, hyps, goal, lineno, note or " & ".join(st.trace[-6:])))
 
     def cover(self, st, label, lineno=0):
@@ -77,7 +78,7 @@ class Engine:
         n = sum(1 for o in self.obls if o.name == nm or o.name.startswith(nm + "#"))
         if n:
             nm = f"{nm}#{n}"
-        hyps = list(st.pc) + self.reg.def_axioms(self.used_defs, self.c.opaque if self.c else ())
+        hyps = list(st.pc) + list(self.axioms_used.values())
         self.obls.append(Obligation(nm, "cover", hyps, TRUE, lineno, "", cover=True))
 
     def bv(self, name, sort):
